@@ -419,7 +419,14 @@ def parse(text):
     blk = None
     while i < n:
         ln = lines[i]
-        if ln.startswith("fn ") and ln.rstrip().endswith("{"):
+        if ln.startswith("fn ") and ln.rstrip().endswith("{") and i > 0 and lines[i - 1].startswith("// MIR FOR CTFE"):
+            # const-eval copy of a const fn: skip it (the runtime body precedes it)
+            cur = None
+            blk = None
+            i += 1
+            while i < n and not lines[i].startswith("}"):
+                i += 1
+        elif ln.startswith("fn ") and ln.rstrip().endswith("{"):
             hdr = ln.rstrip()
             # name = up to the parameter list "(_1: ..." or "()"
             m = re.match(r"^fn (.*?)\((_1: |\))", hdr)
